@@ -88,7 +88,7 @@ func cfGen(depth int, c cfCtx) []cfProg {
 }
 
 func famCF(depth int) *family {
-	f := &family{name: fmt.Sprintf("ctrlflow_d%d", depth), doc: fmt.Sprintf("control-flow skeletons: 10 constructs (for, labelled nested for, range, switch+fallthrough, goto loop, func literal with defers+recover and named result, in-place defers with early-evaluated args, closures capturing the loop variable, if/else-if with init, for{} with break) nested to depth %d x every valid control-transfer leaf", depth)}
+	f := &family{name: fmt.Sprintf("ctrlflow_d%d", depth), group: "ctrlflow", doc: fmt.Sprintf("control-flow skeletons: 10 constructs (for, labelled nested for, range, switch+fallthrough, goto loop, func literal with defers+recover and named result, in-place defers with early-evaluated args, closures capturing the loop variable, if/else-if with init, for{} with break) nested to depth %d x every valid control-transfer leaf", depth)}
 	f.prelude = `
 var cfT string
 
@@ -102,6 +102,59 @@ func trn(s string, n int) { cfT += s + itoa(n) }
 		fmt.Fprintf(&b, "func %s_body() (r int) {\n%s\nreturn 0\n}\n", id, p.body)
 		fmt.Fprintf(&b, "func %s() {\ncfT = \"^\"\nres := -1\nfunc() {\ndefer func() {\nif e := recover(); e != nil {\ncfT += msg(e)\n}\n}()\nres = %s_body()\n}()\nprintln(\"CF\", %q, cfT, res)\n}\n", id, id, p.key)
 		f.units = append(f.units, unit{key: p.key, decls: b.String(), fn: id})
+	}
+	return f
+}
+
+// famFT: scoping across `fallthrough`. A clause that declares variables falls through into a clause that declares
+// its own: every pair of (declaration kind of the clause left) x (declaration kind of the clause entered), with and
+// without a switch init statement, with and without a second fallthrough into default. Variables of the first clause
+// are out of scope in the second (fresh zero values, own closures), and pointers to them taken earlier stay valid.
+func famFT() *family {
+	f := &family{name: "ctrlflow_ft", group: "ctrlflow", doc: "fallthrough scoping: 6 declaration kinds in the clause left (none, one var, two vars, closure-captured, address escaping the switch, string) x 7 in the clause entered (the same + zero-valued var decls) x switch init or not x second fallthrough into default or not"}
+	f.prelude = "\nvar p, q *int\n"
+	type kind struct{ name, code string }
+	as := []kind{
+		{"none", "println(\"FT\", \"A\")"},
+		{"var", "a := 7\nprintln(\"FT\", \"A\", a)"},
+		{"two", "a, a2 := 7, 8\nprintln(\"FT\", \"A\", a, a2)"},
+		{"captured", "a := 7\nfa := func() {\na++\n}\nfa()\nprintln(\"FT\", \"A\", a)"},
+		{"escaping", "a := 7\np = &a\nprintln(\"FT\", \"A\", a)"},
+		{"string", "a := \"s\"\nprintln(\"FT\", \"A\", a)"},
+	}
+	bs := []kind{
+		{"none", "println(\"FT\", \"B\")"},
+		{"var", "b := 9\nprintln(\"FT\", \"B\", b)"},
+		{"two", "b, b2 := 9, 10\nprintln(\"FT\", \"B\", b, b2)"},
+		{"captured", "b := 9\nfb := func() {\nb++\n}\nfb()\nfb()\nprintln(\"FT\", \"B\", b)"},
+		{"escaping", "b := 9\nq = &b\nprintln(\"FT\", \"B\", b)"},
+		{"string", "b := \"t\"\nprintln(\"FT\", \"B\", b)"},
+		{"zero", "var b int\nvar b2 string\nb++\nprintln(\"FT\", \"B\", b, b2 == \"\")"},
+	}
+	n := 0
+	for _, init := range []bool{false, true} {
+		for _, chain := range []bool{false, true} {
+			for _, a := range as {
+				for _, b := range bs {
+					id := fmt.Sprintf("u%d", n)
+					n++
+					var s strings.Builder
+					fmt.Fprintf(&s, "func %s() {\np, q = nil, nil\n", id)
+					if init {
+						s.WriteString("switch x := 1; x {\n")
+					} else {
+						s.WriteString("switch 1 {\n")
+					}
+					fmt.Fprintf(&s, "case 1:\n%s\nfallthrough\ncase 2:\n%s\n", a.code, b.code)
+					if chain {
+						s.WriteString("fallthrough\n")
+					}
+					s.WriteString("default:\nprintln(\"FT\", \"D\")\n}\n")
+					s.WriteString("if p != nil {\nprintln(\"FT\", \"P\", *p)\n}\nif q != nil {\nprintln(\"FT\", \"Q\", *q)\n}\n}\n")
+					f.units = append(f.units, unit{key: fmt.Sprintf("fallthrough init=%v chain=%v %s>%s", init, chain, a.name, b.name), decls: s.String(), fn: id})
+				}
+			}
+		}
 	}
 	return f
 }
